@@ -327,6 +327,19 @@ def check(case, obs):
     # ---- the curves returned first still compute what they computed (later calibrations share nothing with them)
     obs.claim('stable', all(np.array_equal(np.asarray(out.fitting['std_crv'][c](Xd[:, 2 + c])), t_first[c]) for c in range(nch)),
               'standard curves returned by the first calibration changed after later calibrations')
+    # ... also when the caller goes on using (here: reverses in place) the channel list it handed over
+    if nch > 1 and isinstance(chans, list) and all(isinstance(x, str) for x in chans):
+        before_t = [np.asarray(call(out.transform_fxn, d, ch_)) for ch_ in list(chans)]
+        names_then = list(chans)
+        reported = list(out.mef_channels) if hasattr(out, 'mef_channels') else None
+        chans.reverse()
+        try:
+            after_t = [np.asarray(call(out.transform_fxn, d, ch_)) for ch_ in names_then]
+            ok = all(a_.shape == b_.shape and np.array_equal(a_, b_) for a_, b_ in zip(before_t, after_t))
+            ok = ok and (reported is None or list(out.mef_channels) == reported)
+        finally:
+            chans.reverse()
+        obs.claim('stable', ok, "the transformation returned earlier changed when the caller reordered its own channel list")
     if mef_snapshot is not None:
         obs.claim('input_intact', np.array_equal(mef_snapshot, np.asarray(mef_values, dtype=float), equal_nan=True),
                   "the caller's array of manufacturer values was modified")
